@@ -219,6 +219,13 @@ def gen_cases(rng, tier):
                 fields = c13.FIELDS_ODE if kind == "sys_ode" else c13.FIELDS_PDE
                 c["weights"] = {f: c13._weight_spec(rng, f, es, us, rng.choice(["scalar", "dict", "scalar"]))
                                 for f in fields}
+                if r % 2 == 1:
+                    # in every run: two equations whose unequal weights are given as a dictionary written in the
+                    # reverse key order (pairing by position differs between an eager call and a pytree round trip)
+                    c["E"] = 2
+                    es, us = c13._names(c)
+                    c["weights"] = {f: c13._weight_spec(rng, f, es, us, "scalar") for f in fields}
+                    c["weights"]["dyn_loss"] = {"dict": {es[1]: "3/2", es[0]: "1/2"}}
                 if obs is not None and c["U"] == 2 and rng.random() < 0.5:
                     obs["unknowns"] = ["u0"]
             # calls 0, 1: one loss object with two parameter objects (all modes); call 2: a second loss object
